@@ -412,10 +412,17 @@ def main(argv):
         distribution[r["stream"]] = s.get("distribution", {})
         rules.append("%s: %s" % (r["stream"], s["rule"]))
         want = spec.get("signatures")  # which oracle signatures belong to this property (None = all)
+        # a finding whose signature no property that reads this stream lists would be reported by
+        # nobody: it is counted against the property being checked
+        owners = [q.get("signatures") for q in PROPS.values() if any(st["name"] == r["stream"] for st in (q.get("streams") or []))]
+        def owned(sig):
+            return any(w is None or any(sig == x or sig.startswith(x + "/") or sig.startswith(x) for x in w) for w in owners)
         for f in (s.get("findings") or []):
             sig = f["signature"]
             if want is not None and not any(sig == w or sig.startswith(w + "/") or sig.startswith(w) for w in want):
-                continue
+                if owned(sig):
+                    continue
+                notes.append("finding signature %s of stream %s is listed by no property: counted here" % (sig, r["stream"]))
             if replay_sig is not None and sig != replay_sig:
                 continue
             k = match_known(known, pid, sig)
